@@ -15,14 +15,14 @@ var zzProbeNames = []string{"a", "b", "Math"}
 func zzProbeScript(throws bool) string {
 	if zz.Symbolic() {
 		if throws {
-			return "PROBE:a,b,Math throw"
+			return "PROBE:a,b,Math,_node throw"
 		}
-		return "PROBE:a,b,Math"
+		return "PROBE:a,b,Math,_node"
 	}
 	if throws {
-		return `var r = [typeof a, typeof b, typeof Math].join(","); throw new Error(r)`
+		return `var r = [typeof a, typeof b, typeof Math, typeof _node].join(","); throw new Error(r)`
 	}
-	return `[typeof a, typeof b, typeof Math].join(",")`
+	return `[typeof a, typeof b, typeof Math, typeof _node].join(",")`
 }
 
 func zzPickArgs(tag string) ([]interface{}, []bool) {
@@ -43,7 +43,15 @@ func C20VmHygiene() {
 	// first call: any subset of {a, b, Math} as argument names, script returns or throws
 	args1, _ := zzPickArgs("c1")
 	throws := zz.NondetBool("firstThrows")
-	_, err1 := JavaScript(nil, zzProbeScript(throws), args1...)
+	var err1 error
+	if zz.NondetBool("firstWithContext") {
+		// a javascript_with_context call: the record node's JSON is passed as _node
+		ctxNode := idr.CreateNode(idr.ElementNode, "T")
+		idr.AddChild(ctxNode, idr.CreateNode(idr.TextNode, "one"))
+		_, err1 = JavaScriptWithContext(nil, ctxNode, zzProbeScript(throws), args1...)
+	} else {
+		_, err1 = JavaScript(nil, zzProbeScript(throws), args1...)
+	}
 	zz.Assert((err1 != nil) == throws, "first call fails iff its script throws")
 	// second call (gets the pooled VM): sees exactly the built-ins plus its own arguments
 	args2, used2 := zzPickArgs("c2")
@@ -63,6 +71,7 @@ func C20VmHygiene() {
 			want += "undefined"
 		}
 	}
+	want += ",undefined" // _node: the second call is a plain javascript call
 	got, _ := v.(string)
 	zz.Observe("probe", got)
 	zz.Assert(got == want, "the second call sees the built-ins and its own arguments only")
@@ -142,7 +151,7 @@ func C14ParJS() {
 				w += "undefined"
 			}
 		}
-		return w
+		return w + ",undefined"
 	}
 	iters := zz.Stress(200)
 	for it := 0; it < iters; it++ {
